@@ -11,7 +11,10 @@ def write_evidence(rep, mod, wall, code):
     meta = getattr(mod, "META", {})
     cov = {
         "states": max(rep.paths, 0),
-        "transitions": max(rep.decisions, 0),
+        # transitions of the exploration = solver-decided steps along the explored paths:
+        # branch decisions (forks, integer case splits) + obligation queries
+        "transitions": rep.decisions + rep.obligations,
+        "branch_decisions": rep.decisions,
         "traces_validated_against_impl": rep.validated + len(rep.violations) + len(rep.known),
         "samples": rep.samples[:12] or [{"note": "no sample recorded"}],
         "obligations": rep.obligations,
